@@ -322,6 +322,10 @@ var universe = []Obj{
 	A(I(two53p)), A(D("9007199254740992")), V(V(R("1/3"))), V(V(D("0.3333333333333333"))),
 	// complex numbers, with a zero imaginary part (equal to a real) and without
 	Src("#C(1 0)"), Src("#C(2.5 0)"), Src("#C(1 2)"), Src("#C(0 0)"), D("2.5"), R("5/2"),
+	// integers that agree in their low 64 bits (0 and 2^64, 1 and 2^64+1, -2^63 and 2^63), bare and as elements: a
+	// comparison that takes a bignum's low word for its value calls them equal, from one side only
+	I("-9223372036854775808"), I("9223372036854775808"), V(I("0")), V(I("1")), V(I("18446744073709551617")), V(I("-9223372036854775808")), V(I("9223372036854775808")),
+	L(I("0")), L(I("18446744073709551617")), L(I("1")), A(I("0")), A(I(two64)), A(I("18446744073709551617")), V(V(I("0"))), V(V(I(two64))),
 	// floats that are not numbers and infinities, double and single, bare and inside a list: every predicate must still be
 	// reflexive on one object and the chain must hold between two of them (= is false for a NaN and itself)
 	Src("(- (* 1e308 10) (* 1e308 10))"), Src("(coerce (- (* 1e308 10) (* 1e308 10)) 'single-float)"), Src("(* 1e308 10)"), Src("(- (* 1e308 10))"),
